@@ -3,7 +3,9 @@ from vlib.mo import *
 from vlib.runner import KH, run_kani_group, run_mir_obligations
 
 LEVEL = "other"
-EXPLANATION = "Kani/CBMC bounded verdicts over the real request validators with symbolic floats/ints (all 2^32 bit patterns per lane); see obligation_results."
+TECHNIQUE = "Kani/CBMC bounded model checking of the real validators + z3 value slices over MIR def-use (nonzero divisors, return bounds by induction) + MIR path obligations decided by z3"
+EXPLANATION = ("Kani/CBMC over the real request validators with symbolic floats/ints (all 2^32 bit patterns per lane); z3 value slices over the MIR of estimate_selectivity (no divisor can be zero, every factor >= 1, by induction over the recursion); "
+               "mirflow: the engine write path runs the index acceptance test before the WAL append.")
 TRUSTED_BASE = ["Kani 0.68 MIR->goto translation", "CBMC 6.11 + CaDiCaL", "stubs: std::fmt::format -> empty String, RandomState::new -> fixed keys"]
 NOT_COVERED = ["liveness of the async server, panic containment", "oversized batches through real streams", "post-restart census",
                "embedding lengths 4..4095 (lengths 0..3 symbolic, 4096/4097 concrete)", "filter trees deeper than 3 levels or with more than 2 children per node"]
